@@ -72,16 +72,16 @@ func (f memPubFactory) GetTransport() frugal.FPublisherTransport  { return &memP
 func (f memSubFactory) GetTransport() frugal.FSubscriberTransport { return &memSub{b: f.b} }
 
 type ScopeCase struct {
-	Scope   int       `json:"scope"`
-	Op      int       `json:"op"`
-	Name    string    `json:"name"`
-	Proto   string    `json:"proto"`
-	Vars    []string  `json:"vars"`
-	Payload *Node     `json:"payload"`
-	Count   int       `json:"count"` // publishes
-	PubMW   []MWSpec  `json:"pub_mw,omitempty"`
-	SubMW   []MWSpec  `json:"sub_mw,omitempty"`
-	ProvMW  []MWSpec  `json:"prov_mw,omitempty"`
+	Scope   int      `json:"scope"`
+	Op      int      `json:"op"`
+	Name    string   `json:"name"`
+	Proto   string   `json:"proto"`
+	Vars    []string `json:"vars"`
+	Payload *Node    `json:"payload"`
+	Count   int      `json:"count"` // publishes
+	PubMW   []MWSpec `json:"pub_mw,omitempty"`
+	SubMW   []MWSpec `json:"sub_mw,omitempty"`
+	ProvMW  []MWSpec `json:"prov_mw,omitempty"`
 }
 
 func usableScopes() []int {
